@@ -31,7 +31,15 @@ impl Typstyle {
 
         let attrs = AttrStore::new(node.get()); // Here we only compute the attributes of that subtree.
         let printer = PrettyPrinter::new(self.config.clone(), attrs);
-        let ctx = Context::default().with_mode(mode);
+        let mut ctx = Context::default().with_mode(mode);
+        // Line breaks are suppressed inside equations, as in `convert_math`.
+        let mut ancestor = node.parent();
+        while let Some(parent) = ancestor {
+            if parent.kind() == SyntaxKind::Equation {
+                ctx = ctx.suppress_breaks();
+            }
+            ancestor = parent.parent();
+        }
         let doc = if let Some(markup) = node.cast() {
             printer.convert_markup(ctx, markup)
         } else if let Some(expr) = node.cast() {
